@@ -96,7 +96,11 @@ type Term struct {
 	Lit  string  // for literals / bound vars
 	Vars []*Term // quantifier bound variables (Op "forall"/"exists")
 	Pats [][]*Term
+	str  string // cached rendering
 }
+
+// pegDefs: define-fun text of the PEG automata (set when the shape theory is built)
+var pegDefs string
 
 var freshCtr = map[string]int{}
 
@@ -447,8 +451,15 @@ func Upd(t *Term, field string, v *Term) *Term {
 }
 
 func (t *Term) String() string {
+	if t.str != "" {
+		return t.str
+	}
 	var b strings.Builder
 	t.write(&b)
+	if b.Len() > 64 {
+		t.str = b.String()
+		return t.str
+	}
 	return b.String()
 }
 
@@ -606,7 +617,19 @@ func (c *collector) header(b *strings.Builder) {
 		ds = append(ds, d)
 	}
 	sort.Slice(ds, func(i, j int) bool { return ds[i].order < ds[j].order })
+	pegUsed := false
 	for _, d := range ds {
+		if d.Name == "peg.delta" || d.Name == "peg.init" || d.Name == "peg.acc" || d.Name == "peg.owner" || d.Name == "peg.only" || d.Name == "peg.insym" {
+			pegUsed = true
+		}
+	}
+	if pegUsed && pegDefs != "" {
+		b.WriteString(pegDefs)
+	}
+	for _, d := range ds {
+		if pegDefs != "" && (d.Name == "peg.delta" || d.Name == "peg.init" || d.Name == "peg.acc" || d.Name == "peg.owner" || d.Name == "peg.only" || d.Name == "peg.insym") {
+			continue
+		}
 		b.WriteString("(declare-fun " + d.Name + " (")
 		for i, a := range d.Args {
 			if i > 0 {
